@@ -9,7 +9,20 @@ Only true external boundaries are replaced (DESIGN 1.4):
   kernel-level teardown before it is the boundary);
 * ``treadmill.subproc.resolve`` (path lookup of executables),
   ``treadmill.supervisor.control_svscan`` / ``control_service`` (s6);
-* ``os.fsync`` (durability barrier; no crash cuts in C13).
+* ``os.fsync`` (durability barrier; no crash cuts in C13);
+* ``plugin_manager.load('treadmill.tombstones', 'container-cleanup')`` ->
+  ``monitor.MonitorContainerCleanup`` (no entry points registered).
+
+The s6 control fakes can be made to FAIL at scripted points:
+``arm_fault('svscan'|'service', n)`` makes the next n calls raise
+``subproc.CalledProcessError`` (svscan busy / restarting), whoever the caller
+is (``AppCfgMgr._refresh_supervisor``, ``MonitorContainerCleanup``,
+``MonitorContainerDown``).
+
+The node monitor (``treadmill.monitor.Monitor``) runs its real ``run()``:
+``_configure`` (which re-reads the tombstone directories) is executed by the
+first entry of a monitor life only, and the endless loop is left through
+``wait_for_events`` raising ``MonitorIdle`` when nothing is pending.
 
 Observers (signature-transparent wrappers, they call the original and return
 its result) record WHO created or moved a link:
@@ -31,7 +44,16 @@ _STATE = {
     'calls': [],        # (handler, arg) every wrapped AppCfgMgr call
     'svscan': 0,
     'orig': {},
+    'faults': {'svscan': 0, 'service': 0},
+    'fault_hits': [],        # (target, context) of the current step
+    'monitor_watcher': None,  # the DirWatcher of the live monitor
+    'tomb_exec': {},         # (id, timestamp) -> number of executions
+    'tomb_log': [],          # (id, timestamp, nth execution, result)
 }
+
+
+class MonitorIdle(BaseException):
+    """The monitor has nothing left to do and would block."""
 
 _WRAPPED = ('_on_created', '_on_deleted', '_on_modified', '_synchronize',
             '_terminate', '_configure')
@@ -88,10 +110,18 @@ def install():
     )
     subproc.resolve = lambda exe: '/vf-fake/' + exe
 
+    def _maybe_fail(target, cmd):
+        if _STATE['faults'][target] > 0:
+            _STATE['faults'][target] -= 1
+            _STATE['fault_hits'].append((target, tuple(_STATE['stack'])))
+            raise subproc.CalledProcessError(111, cmd)
+
     def control_svscan(_scan_dir, _actions):
+        _maybe_fail('svscan', 's6-svscanctl')
         _STATE['svscan'] += 1
 
     def control_service(*_args, **_kwargs):
+        _maybe_fail('service', 's6-svc')
         return True
 
     supervisor.control_svscan = control_svscan
@@ -111,7 +141,94 @@ def install():
         setattr(cls, name, _mk_method_wrapper(name, orig))
     fs.symlink_safe = _mk_fs_wrapper('symlink_safe', fs.symlink_safe)
     fs.replace = _mk_fs_wrapper('replace', fs.replace)
+    _install_monitor_shims()
     _STATE['installed'] = True
+
+
+def _install_monitor_shims():
+    from treadmill import dirwatch
+    from treadmill import monitor
+    from treadmill import plugin_manager
+
+    orig_load = plugin_manager.load
+
+    def load(namespace, name):
+        if namespace == 'treadmill.tombstones' and name == 'container-cleanup':
+            return monitor.MonitorContainerCleanup
+        return orig_load(namespace, name)
+
+    plugin_manager.load = load
+
+    orig_configure = monitor.Monitor._configure
+
+    def _configure(self_, *args, **kwargs):
+        if self_._dirwatcher is not None:
+            return None              # same monitor life: resume the loop
+        res = orig_configure(self_, *args, **kwargs)
+        _STATE['monitor_watcher'] = self_._dirwatcher
+        return res
+
+    monitor.Monitor._configure = _configure
+
+    cls = dirwatch.DirWatcher
+    orig_wait = cls.wait_for_events
+
+    def wait_for_events(self_, *args, **kwargs):
+        if self_ is _STATE['monitor_watcher']:
+            if orig_wait(self_, 0):
+                return True
+            raise MonitorIdle()
+        return orig_wait(self_, *args, **kwargs)
+
+    cls.wait_for_events = wait_for_events
+
+    orig_execute = monitor.MonitorContainerCleanup.execute
+
+    def execute(self_, data, *args, **kwargs):
+        key = (data['id'], data['timestamp'])
+        nth = _STATE['tomb_exec'].get(key, 0) + 1
+        _STATE['tomb_exec'][key] = nth
+        _STATE['stack'].append('MonitorContainerCleanup')
+        try:
+            res = orig_execute(self_, data, *args, **kwargs)
+        finally:
+            _STATE['stack'].pop()
+        _STATE['tomb_log'].append((data['id'], data['timestamp'], nth, res))
+        return res
+
+    monitor.MonitorContainerCleanup.execute = execute
+
+
+def new_case():
+    """Forget everything that belongs to the previous node."""
+    _STATE['faults']['svscan'] = 0
+    _STATE['faults']['service'] = 0
+    _STATE['tomb_exec'].clear()
+    _STATE['monitor_watcher'] = None
+    reset_logs()
+
+
+def arm_fault(target, count):
+    """The next `count` calls of the s6 control command fail."""
+    _STATE['faults'][target] = count
+
+
+def armed(target):
+    return _STATE['faults'][target]
+
+
+def fault_hits():
+    """[(target, context)] faults injected in the current step."""
+    return list(_STATE['fault_hits'])
+
+
+def tomb_log():
+    """[(id, timestamp, nth execution, result)] of the current step."""
+    return list(_STATE['tomb_log'])
+
+
+def forget_monitor_watcher():
+    _STATE['monitor_watcher'] = None
 
 
 def reset_logs():
@@ -119,6 +236,8 @@ def reset_logs():
     del _STATE['log'][:]
     del _STATE['calls'][:]
     del _STATE['stack'][:]
+    del _STATE['fault_hits'][:]
+    del _STATE['tomb_log'][:]
 
 
 def link_log():
